@@ -42,6 +42,7 @@ fn acts(n: &Node, thorough: bool, jumps: &[u64]) -> Vec<Action> {
         // before any stake: plain blocks.  Once a stake exists: the block right after the stake block and the two blocks
         // around every epoch boundary are opened honestly, everything in between is skipped by a jump to the next boundary.
         if m.stake_txs_seen.is_empty() {
+            // before any stake: plain blocks
             return vec![Action::Open];
         }
         let next_h = m.height + 1;
@@ -53,6 +54,7 @@ fn acts(n: &Node, thorough: bool, jumps: &[u64]) -> Vec<Action> {
         if near_boundary || stake_in_this_block {
             v.push(Action::Open);
         }
+
         if !near_boundary {
             if let Some(j) = jumps.iter().find(|j| **j > m.height) {
                 v.push(Action::Jump(*j));
@@ -142,6 +144,21 @@ fn acts(n: &Node, thorough: bool, jumps: &[u64]) -> Vec<Action> {
 fn check_votes(run: &Run, n: &Node) {
     let v = n.view();
     let rs = v.raw_stakes();
+    // a node restarted from a block that holds a Stake transaction (registered or not) carries exactly the stakes of the original
+    if let Real::Sealed(s) = &n.real {
+        if n.model.block_txs.values().any(|t| t.kind == TxKind::Stake) {
+            let db = s.raw_coins_smt().database();
+            if let Ok(r) = crate::guard::guard(|| melstf::SealedState::from_block(&s.to_block(), &s.raw_stakes(), &db)) {
+                run.transition();
+                run.validated();
+                let a: BTreeMap<_, _> = r.raw_stakes().iter().map(|(k, d)| (*k, (d.pubkey, d.e_start, d.e_post_end, d.syms_staked))).collect();
+                let b: BTreeMap<_, _> = n.model.stakes.iter().map(|(k, d)| (*k, (d.pubkey, d.e_start, d.e_post_end, d.syms_staked))).collect();
+                if a != b {
+                    run.violation("C13", format!("stake-set-after-restart/{}", if a.len() > b.len() { "extra-stake" } else if a.len() < b.len() { "missing-stake" } else { "stake-differs" }), format!("from_block(to_block(S)) registers {} stakes, the model {} after [{}]", a.len(), b.len(), n.path_str()), n.replay_json(None));
+                }
+            }
+        }
+    }
     for epoch in 0..6u64 {
         let mut total = 0u128;
         for k in 0..3u8 {
@@ -193,6 +210,20 @@ pub fn run(run: &Run) {
         let st = bfs(&eng, vec![rootn], depth, 400_000, &a, &visit);
         run.set(&format!("scenario:{}", name), json!({"depth_bound_completed": st.depth_completed, "unique_states": st.states, "transitions": st.transitions, "frontier_sizes": st.frontier_sizes}));
         println!("  scenario {}: depth {} states {} transitions {}", name, st.depth_completed, st.states, st.transitions);
+    }
+    // the first stake of a history made in the last block of an epoch and in the first block of the next (documents starting in the
+    // current epoch must not register there either)
+    {
+        let (_w, rootn) = root(NetID::Custom02, 0, true);
+        let eng = Engine::new(run);
+        if let StepOut::Next(start) = eng.step(&rootn, &Action::Jump(199_997)) {
+            let j = jumps.clone();
+            let a = move |n: &Node| acts(n, thorough, &j);
+            let visit = |n: &Node| check_votes(run, n);
+            let st = bfs(&eng, vec![start], if thorough { 14 } else { 11 }, 300_000, &a, &visit);
+            run.set("scenario:custom02-first-stake-at-epoch-boundary", json!({"depth_bound_completed": st.depth_completed, "unique_states": st.states, "transitions": st.transitions}));
+            println!("  scenario custom02-first-stake-at-epoch-boundary: depth {} states {} transitions {}", st.depth_completed, st.states, st.transitions);
+        }
     }
     // testnet across height 500000, where stake documents begin to be checked and stakes to be registered (below it a Stake
     // transaction is an ordinary transfer), and across height 900000, where the lock rule comes into force
